@@ -767,7 +767,9 @@ func syntaxCmd(args []string) error {
 		// (b2) bounded-exhaustive inside contexts: the lexer states that an empty context never reaches in a few symbols
 		// (task bodies, later command lines, argument lists, right-hand sides, outputs, comments, strings)
 		contexts := [][2]string{{"task a(){", "}"}, {"task a(){\nx\n", "\n}"}, {"task a(", "){}"}, {"a:=", ""}, {"a:=join(", ")"},
-			{"task a()->", "{}"}, {"#", "\ntask a(){}"}, {"task a(\"", "\"){}"}, {"task a(){x ", "\n}\n#"}}
+			{"task a()->", "{}"}, {"#", "\ntask a(){}"}, {"task a(\"", "\"){}"}, {"task a(){x ", "\n}\n#"},
+			// a well-formed token where the parser does not expect one: a second string after a right-hand side, after an output, in an argument list
+			{"a:=\"x\" \"", "\"\n"}, {"task a()->\"b\" \"", "\"{}"}, {"task a(\"x\" \"", "\"){}"}}
 		ctxLen := 3
 		var recCtx func(c [2]string, mid string, depth int)
 		recCtx = func(c [2]string, mid string, depth int) {
